@@ -405,7 +405,7 @@ pub fn apply<P: PType>(map: &mut PrefixMap<P, u32>, model: &mut Model, w: &Walk,
         K::Retain => {
             let before = model.entries();
             let mut calls: Vec<Obs> = vec![];
-            let keep = |o: &Obs| -> bool { uni.key_id(norm((o.0, o.1))).map(|id| (op.arg >> id) & 1 == 1).unwrap_or(true) };
+            let keep = |o: &Obs| -> bool { uni.key_id(norm((o.0, o.1))).map(|id| op.arg.checked_shr(id as u32).map(|x| x & 1 == 1).unwrap_or(false)).unwrap_or(true) };
             map.retain(|p, v| {
                 let o = obs(p, v);
                 calls.push(o);
